@@ -5,7 +5,7 @@
    every reachable state: there is a fuel for which it returns a value (for every [w]), and more
    fuel does not change the value.  The tree theorems of Props/C08.v ("for every N for which
    strands returns a value") therefore speak about every reader of every reachable state. *)
-From Eino Require Import Base.Util Model.Stream Proofs.Stream Proofs.StreamRel Proofs.StreamWf Proofs.StreamClose Proofs.StreamLink Proofs.StreamSem Proofs.StreamEof Proofs.StreamRank.
+From Eino Require Import Base.Util Model.Stream Proofs.Stream Proofs.StreamRel Proofs.StreamWf Proofs.StreamClose Proofs.StreamLink Proofs.StreamSem Proofs.StreamEof Proofs.StreamRank Proofs.StreamTrace.
 From Coq Require Import Lia Permutation.
 
 Lemma opt_concat_mono : forall A B (f g : B -> option (list A)) l r,
@@ -137,4 +137,43 @@ Proof.
   pose proof (Hs N (le_n _)) as HsN.
   destruct (run_tree_delivery _ _ _ _ Hrun Hleg h H Hn Hlv N strs HsN) as [A B]. split; auto. split; auto.
   intros He. exact (run_tree_delivery_full _ _ _ _ Hrun Hleg h H Hn Hlv He N strs HsN).
+Qed.
+
+(* [strands] reads [w] at user pipes only *)
+Lemma strands_w_ext : forall N G w w' t,
+  (forall sid s, nth_error (streams (st_store G)) sid = Some s -> s_user s = true -> w sid = w' sid) ->
+  strands N G w t = strands N G w' t.
+Proof.
+  induction N as [|N IH]; intros G w w' t Hw; [reflexivity|].
+  rewrite !strands_unfold.
+  assert (Hos : forall sid, of_stream N G w sid = of_stream N G w' sid).
+  { intros sid. unfold of_stream. destruct (find_fwd_to G sid) as [F|]; [apply IH; exact Hw|].
+    destruct (nth_error (streams (st_store G)) sid) as [s|] eqn:Es; auto.
+    destruct (s_user s) eqn:Eu; auto. rewrite (Hw sid s Es Eu). reflexivity. }
+  destruct t as [d rest | sid | sts ch | f src cin cout | p i]; auto.
+  - f_equal. apply map_ext. exact Hos.
+  - rewrite (IH G w w' src Hw). reflexivity.
+  - destruct (nth_error (parents (st_store G)) p) as [P|]; auto.
+Qed.
+
+(* the tree theorem stated on the observable trace alone: what the Recv calls on a handle
+   returned is an order-preserving interleaving of (prefixes of) the strands computed from what
+   the Send calls accepted — the predicate the correspondence check evaluates on the
+   implementation's histories ([leaf_ok] of Corr/C08.v) *)
+Lemma run_tree_delivery_trace : forall fuel ops bs G,
+  run fuel init_state ops = (bs, G) -> legal_run fuel ops ->
+  forall h H, nth_error (st_handles G) h = Some H -> h_live H = true ->
+  exists strs,
+    (exists N, forall M, N <= M -> strands M G (fun sid => sent_trace sid ops bs) (h_rd H) = Some strs)
+    /\ is_interleaving_of false (recv_trace h ops bs) strs = true
+    /\ (eof_trace h ops bs = true -> is_interleaving_of true (recv_trace h ops bs) strs = true).
+Proof.
+  intros fuel ops bs G Hrun Hleg h H Hn Hlv.
+  destruct (run_tree_delivery_total _ _ _ _ Hrun Hleg h H Hn Hlv) as (strs & (N & HN) & _ & A & B).
+  destruct (run_recv_log_is_trace _ _ _ _ Hrun h H Hn) as [Eg Ee].
+  exists strs. split; [|split].
+  - exists N. intros M HM. rewrite <- (HN M HM). apply strands_w_ext.
+    intros sid s Hs Hu. unfold cur_w. rewrite Hs. symmetry. eapply run_sent_log_is_trace; eauto.
+  - rewrite <- Eg. exact A.
+  - intros He. rewrite <- Eg. apply B. rewrite Ee. exact He.
 Qed.
